@@ -204,6 +204,11 @@ func (r *Reader) Read(a []byte) (n int, err error) {
 	if err == nil && int64(n) == r.length-r.position {
 		err = io.EOF
 	}
+	if n == 0 && err == nil && len(a) > 0 {
+		// the piece has been evicted since we requested it,
+		// make sure we request it again
+		r.requestedIndex = -1
+	}
 
 	if err != nil {
 		r.request(-1, -1)
